@@ -67,6 +67,26 @@ func (c09) Gen(r *Rng, tier string, run int) *Trace {
 			}
 		}
 	}
+	// calls on neighbours and ancestors: whatever they legitimately do to
+	// themselves, the read-only instance (perhaps nested in them) stays as it is
+	if r.Bool(0.35) {
+		var others []int
+		for _, s := range w.stacks {
+			if s != target {
+				others = append(others, s)
+			}
+		}
+		o := others[r.Intn(len(others))]
+		octx := &synthCtx{self: o, stacks: w.stacks, conds: w.conds, uniq: &g.uniq, sink: w.sink, lenHint: 2}
+		oms := methodsOfClass('S', "mutator")
+		m := oms[r.Intn(len(oms))]
+		switch m.Name {
+		case "Free", "Marshal", "Transfer", "SetReadOnly", "ReadOnly", "SetMutex", "Mutex":
+			// (Free would drop the neighbour's handle; Transfer is below)
+		default:
+			burst = append(burst, Op{Obj: o, M: m.Name, Args: synthArgs(r, m, octx, r.Intn(3)), Tag: "burst"})
+		}
+	}
 	// neighbours called with the fenced object as argument
 	if kind == 'S' && r.Bool(0.4) {
 		for _, s := range w.stacks {
@@ -170,6 +190,15 @@ func (p c09) check(x *Exec, op Op, out Outcome, who string) {
 	st := x.state.(*c09state)
 	if !st.up {
 		return
+	}
+	if op.Obj != st.target {
+		// a call on a neighbour legitimately changes that neighbour (and what
+		// it is given): re-baseline those, judge only the fenced instance itself
+		for k := range st.reach {
+			if k == op.Obj || touches(op, k) {
+				st.reach[k] = normStamp(x.w.dump(k))
+			}
+		}
 	}
 	if op.Obj == st.target && op.M != "Init" {
 		// a call on the read-only instance must not reach through it either:
